@@ -338,10 +338,12 @@ def eval_cases(workdir, tag, imports, preamble, runner, cases, wants,
         with open(path, 'w', encoding='utf-8') as f:
             f.write(HEADER.format(imports=imports))
             f.write(preamble + "\n")
-            f.write("Definition cases := [\n  " + ";\n  ".join(cs) + "].\n")
+            # the list literal is elaborated against the runner's argument
+            # type (an empty list inside a case needs no annotation)
             f.write("Definition want : list jv := [\n  "
                     + ";\n  ".join(jv(w) for w in ws) + "].\n")
-            f.write(f"Definition got : list jv := map ({runner}) cases.\n")
+            f.write(f"Definition got : list jv := map ({runner}) [\n  "
+                    + ";\n  ".join(cs) + "].\n")
             f.write("Definition bad := Eval vm_compute in "
                     "(mismatches got want).\n")
             f.write('Goal True. idtac "@@@BAD". exact I. Qed.\n')
